@@ -9,8 +9,15 @@ pub trait RuntimeFlag {
     fn spec_id(&self) -> (s: SpecId) ensures s == self.spec_spec();
 }
 pub trait InputsTr {
+    // every accessor of revm's InputsTr (so that an edit naming another one is decided, not a type error)
     spec fn target_spec(&self) -> Address;
+    spec fn bytecode_spec(&self) -> Option<Address>;
+    spec fn caller_spec(&self) -> Address;
+    spec fn value_spec(&self) -> U256;
     fn target_address(&self) -> (a: Address) ensures a == self.target_spec();
+    fn bytecode_address(&self) -> (a: Option<&Address>) ensures (match a { Some(x) => Some(*x), None => None }) == self.bytecode_spec();
+    fn caller_address(&self) -> (a: Address) ensures a == self.caller_spec();
+    fn call_value(&self) -> (v: U256) ensures v == self.value_spec();
 }
 pub trait InterpreterTypes { type RuntimeFlag: RuntimeFlag; type Input: InputsTr; }
 pub struct Interpreter<WIRE: InterpreterTypes> { pub runtime_flag: WIRE::RuntimeFlag, pub input: WIRE::Input }
